@@ -515,3 +515,76 @@ pub fn finish<const V: usize>(e: &mut Exec<V>) {
     e.verdict.counters.insert("scan_calls".into(), g().scan_calls.load(Ordering::SeqCst));
     e.verdict.counters.insert("live_at_end".into(), e.objs.len() as u64);
 }
+
+/// C24: all side metadata tables in use occupy pairwise disjoint address ranges inside the reserved range.
+pub fn check_side_specs<const V: usize>(e: &mut Exec<V>, seed: u32) {
+    use mmtk::util::metadata::side_metadata::SideMetadataSpec;
+    use mmtk::verif::side_metadata as sm;
+    let infos = mmtk::verif::space_infos(e.mmtk);
+    // distinct specs in use: (spec, first space that uses it)
+    let mut specs: Vec<(SideMetadataSpec, &'static str)> = vec![];
+    for s in &infos {
+        for sp in s.global_specs.iter().chain(s.local_specs.iter()) {
+            if !specs.iter().any(|(x, _)| x == sp) {
+                specs.push((*sp, s.name));
+            }
+        }
+    }
+    let (base, reserved) = sm::reserved_range();
+    let base = base.as_usize();
+    // a contiguous table covers the whole 47-bit address space: one field per region
+    const LOG_ADDRESS_SPACE: usize = 47;
+    let range = |sp: &SideMetadataSpec| -> (usize, usize) {
+        let start = sm::meta_location(sp, unsafe { Address::from_usize(0) }).0.as_usize();
+        let regions_log = LOG_ADDRESS_SPACE - sp.log_bytes_in_region;
+        let bits_log = regions_log + sp.log_num_of_bits;
+        let bytes = 1usize << bits_log.saturating_sub(3);
+        (start, start + bytes)
+    };
+    for (i, (s, sn)) in specs.iter().enumerate() {
+        let (ss, se) = range(s);
+        if ss < base || se > base + reserved {
+            e.violate("C24", "table-outside-reserved-range", format!("side metadata table {} (space {}) occupies [{:#x},{:#x}), outside the reserved range [{:#x},{:#x})", s.name, sn, ss, se, base, base + reserved));
+            return;
+        }
+        if se - ss != sm::address_range_size(s) {
+            // informational: the harness and mmtk disagree about the size of a table
+            cnt!(e, "c24_size_formula_mismatch");
+        }
+        for (t, tn) in specs.iter().skip(i + 1) {
+            let (ts, te) = range(t);
+            if ss < te && ts < se {
+                e.violate("C24", "tables-overlap", format!("side metadata tables {} (space {}, [{:#x},{:#x})) and {} (space {}, [{:#x},{:#x})) overlap", s.name, sn, ss, se, t.name, tn, ts, te));
+                return;
+            }
+            cnt!(e, "c24_pairs");
+        }
+    }
+    // differential: the metadata byte of a heap address under one table is never the byte under another
+    let mut rng = Lcg(seed as u64 ^ 0xA076_1D64_78BD_642F);
+    let hs = mm::starting_heap_address().as_usize();
+    let he = mm::last_heap_address().as_usize();
+    let mut addrs: Vec<usize> = vec![hs, he - 8];
+    for s in &infos {
+        if s.start.as_usize() != 0 {
+            addrs.push(s.start.as_usize());
+            addrs.push(s.start.as_usize() + s.extent - 8);
+        }
+    }
+    for _ in 0..500 {
+        addrs.push((hs + (rng.next() as usize % (he - hs))) & !7);
+    }
+    for a in &addrs {
+        let locs: Vec<usize> = specs.iter().map(|(s, _)| sm::meta_location(s, unsafe { Address::from_usize(*a) }).0.as_usize()).collect();
+        for i in 0..locs.len() {
+            for j in i + 1..locs.len() {
+                if locs[i] == locs[j] {
+                    e.violate("C24", "metadata-byte-aliased", format!("heap address {:#x}: tables {} and {} keep its metadata in the same byte {:#x}", a, specs[i].0.name, specs[j].0.name, locs[i]));
+                    return;
+                }
+            }
+        }
+    }
+    cnt!(e, "c24_specs", specs.len());
+    cnt!(e, "c24_checked");
+}
